@@ -52,6 +52,7 @@ def gen(seed):
     if mode in ('delay', 'mix'):
         rates['down_delay'] = rng.choice([0.1, 0.3])
     knobs['rates'] = rates
+    knobs['close_duration'] = rng.choice([0.0, 0.0, 0.002, 0.02, 0.1])
     dev = wgen.gen_device(rng, n_log=rng.choice([1, 3]), n_param=rng.choice([1, 3]), version=rng.choice([10, 3]),
                           mems=[[0x18, 32, None]])
     nsess = rng.choice([1, 2, 2, 3])
@@ -110,6 +111,9 @@ def execute(ctx):
     w, devs = common.make_world(ctx, {'cf': plan['device']})
     dev = devs['cf']
     w.lossy = lambda direction, header, data: ((header >> 4) & 0xF) == 9 or _retried(header, data)
+    w.close_duration = ctx.knobs.get('close_duration', 0.0)
+    # a link stops transmitting when its driver starts closing (by close_link or by the link error handler)
+    w.on_link_close = lambda link: ev.append(('link-down', sim.now, link.session))
     if ctx.knobs.get('echo_delay') is not None:
         d = ctx.knobs['echo_delay']
         dev.reply_delay = lambda port, channel, data: d if port == 9 else 0.0
@@ -154,48 +158,79 @@ def execute(ctx):
                 req_info[id(pk)] = {'timeout': timeout, 'session': link.session, 'pattern': pattern}
             return orig_send(pk, expected_reply, resend, timeout)
         cf.send_packet = send
-        # refinement check of the answer matcher: replace the registered bound method by a wrapper
+        # the table of pending answers is observed at the points where the library reads and changes it (i.e. under the
+        # library's own lock): the view the matcher had, what it removed, and which requests a removal answered
+        obs_by_thread = {}
+
+        class ObservedDict(dict):
+            def keys(self):
+                ks = list(dict.keys(self))
+                o = obs_by_thread.get(P.get_ident())
+                if o is not None:
+                    o['keys'] = ks
+                return ks
+
+            def pop(self, k, *d):
+                v = dict.pop(self, k, *d)
+                if v is not None:
+                    o = obs_by_thread.get(P.get_ident())
+                    if o is not None:
+                        o['pops'].append(k)
+                    if isinstance(v, dict):
+                        ids = set(id(x) for x in v)
+                        for m in list(model.get(k, [])):
+                            if m['pk'] in ids:
+                                ev.append(('answered', sim.now, m['pk'], k))
+                                model[k].remove(m)
+                        if k in model and not model[k]:
+                            del model[k]
+                    else:
+                        for m in model.pop(k, []):
+                            ev.append(('answered', sim.now, m['pk'], k))
+                return v
+        state['fresh_table'] = lambda: ObservedDict()
+        cf._answer_patterns = ObservedDict()
         cbs = cf.packet_received.callbacks
         idx = [i for i, c in enumerate(cbs) if getattr(c, '__func__', None) is type(cf)._check_for_answers][0]
         orig_check = cbs[idx]
 
         def check(pk):
-            before = set(cf._answer_patterns.keys())
             data = (pk.header,) + tuple(pk.data)
-            orig_check(pk)
-            after = set(cf._answer_patterns.keys())
+            o = {'keys': None, 'pops': []}
+            tid = P.get_ident()
+            obs_by_thread[tid] = o
+            table = cf._answer_patterns
+            before = set(dict.keys(table))
+            try:
+                orig_check(pk)
+            finally:
+                obs_by_thread.pop(tid, None)
+
             def match(p):
                 return len(p) <= len(data) and p == data[:len(p)]
-            removed = before - after
-            stable = before & after            # present before and after: not touched by concurrent senders
-            torn = state.get('closing', 0) != 0 or cf.link is None
-            want = None
-            if not torn:
-                if len(removed) > 1:
-                    ctx.violation('3', 'several-patterns-cancelled', 'packet %r removed %r' % (data, sorted(removed)))
-                elif len(removed) == 1:
-                    r = next(iter(removed))
-                    want = r
-                    if not match(r):
-                        ctx.violation('3', 'pattern-removed-without-match', 'packet %r removed %r' % (data, r))
-                    longer = [p for p in stable if match(p) and len(p) > len(r)]
-                    if longer:
-                        ctx.violation('3', 'wrong-pattern-cancelled', 'packet %r: removed %r although the longer pending '
-                                      'pattern %r matches' % (data, r, longer[0]))
-                    if [p for p in before if match(p)][1:]:
-                        ctx.probe('reply matched several pending patterns')
-                else:
-                    left = [p for p in stable if match(p)]
-                    if left:
-                        ctx.violation('3', 'answered-pattern-not-cancelled', 'packet %r matches pending %r but nothing was '
-                                      'cancelled' % (data, left))
-            else:
-                cands = [p for p in before if match(p)]
-                want = max(cands, key=len) if cands else None
-            if want is not None and want in model:
-                for m in model[want]:
-                    ev.append(('answered', sim.now, m['pk'], want))
-                del model[want]
+            if not isinstance(table, ObservedDict) or cf._answer_patterns is not table:
+                return                     # torn down meanwhile: nothing is pending any more
+            # the matcher's own view if it listed the keys, else the table just before the call (no concurrent sender can
+            # be told apart then, so only patterns present before and after are judged)
+            exact = o['keys'] is not None
+            view = set(o['keys']) if exact else before & set(dict.keys(table)) | set(o['pops'])
+            cands = [p for p in view if match(p)]
+            want = max(cands, key=len) if cands else None
+            pops = o['pops']
+            if len(pops) > 1:
+                ctx.violation('3', 'several-patterns-cancelled', 'packet %r removed %r' % (data, sorted(pops)))
+            elif len(pops) == 1:
+                r = pops[0]
+                if not match(r):
+                    ctx.violation('3', 'pattern-removed-without-match', 'packet %r removed %r' % (data, r))
+                elif want is not None and len(want) > len(r):
+                    ctx.violation('3', 'wrong-pattern-cancelled', 'packet %r: removed %r although the longer pending '
+                                  'pattern %r matches' % (data, r, want))
+                if len(cands) > 1:
+                    ctx.probe('reply matched several pending patterns')
+            elif want is not None:
+                ctx.violation('3', 'answered-pattern-not-cancelled', 'packet %r matches pending %r but nothing was '
+                              'cancelled' % (data, want))
         cbs[idx] = check
 
         for si, s in enumerate(plan['ops']):
@@ -229,6 +264,8 @@ def run_session(ctx, w, dev, cf, si, s, ev, model, state, CRTPPacket):
     if s.get('fail'):
         w.fail_plan.append({'after': ctx.work.randint(3, 40), 'mode': 'driver', 'block': 0})
     state['closing'] = 0
+    if not cf._answer_patterns and 'fresh_table' in state:
+        cf._answer_patterns = state['fresh_table']()
     cf.open_link('sim://cf')
     if s['wait'] != 'none':
         common.wait_until(sim, lambda: s['wait'] in got or 'connection_failed' in got or 'disconnected' in got,
@@ -303,12 +340,14 @@ def oracle(ctx, w, tx, ev, pk_first, slack, req_info=None, t_end=0.0):
                 break
     # clause 6: never across sessions
     for pid, recs in by_pk.items():
-        s0 = recs[0][2]
+        # the session in which the request was issued (it may never have been transmitted there: handed to a driver that
+        # was already closing)
+        s0 = (req_info or {}).get(pid, {}).get('session', recs[0][2])
         bad = [r for r in recs if r[2] != s0]
         if bad:
             ctx.violation('6', 'request-transmitted-in-later-session',
-                          'packet header=%#x data=%r first sent in session %d at %.4f, transmitted in session %d at %.4f'
-                          % (recs[0][4], recs[0][5], s0, recs[0][1], bad[0][2], bad[0][1]))
+                          'packet header=%#x data=%r issued in session %d (first transmission at %.4f), transmitted in '
+                          'session %d at %.4f' % (recs[0][4], recs[0][5], s0, recs[0][1], bad[0][2], bad[0][1]))
             break
     # clause 5: nothing handed to a link after close_link returned (of that session)
     for (t, session, kind, header, data, note) in w.wire:
